@@ -12,7 +12,7 @@ import vp
 
 
 def run(tier):
-    chk = vp.Check("C02", tier)
+    chk = vp.Check("C02", tier, level="translation_validation")
     wd = vp.workdir("c02")
     thorough = tier == "thorough"
     events = c01.observe(chk, wd, False, ("enter", "legal"))
